@@ -10,6 +10,7 @@ import (
 	"strconv"
 	"strings"
 	"sync"
+	"time"
 
 	"github.com/aliyun/alibaba-cloud-sdk-go/services/ecs"
 	"github.com/aliyun/alibaba-cloud-sdk-go/services/eflo"
@@ -54,6 +55,8 @@ func (t *c16RT) RoundTrip(req *http.Request) (*http.Response, error) {
 	switch {
 	case t.mode == "1":
 		status, body = 400, `{"Code":"InvalidParameter","Message":"injected","RequestId":"R-1","HostId":"h"}`
+	case t.mode == "3": // every attempt of the wrapper's back-off loop is throttled
+		status, body = 400, `{"Code":"Throttling","Message":"injected","RequestId":"R-1","HostId":"h"}`
 	case action == "CreateNetworkInterface":
 		body = `{"RequestId":"R-1","NetworkInterfaceId":"eni-new","MacAddress":"00:16:3e:00:00:01","PrivateIpAddress":"10.0.0.1","Status":"Available","Type":"Secondary","VSwitchId":"vsw-1","SecurityGroupIds":{"SecurityGroupId":["sg-1"]},"PrivateIpSets":{"PrivateIpSet":[]},"Ipv6Sets":{"Ipv6Set":[]}}`
 	case action == "AssignPrivateIpAddresses":
@@ -120,6 +123,9 @@ func (a *c16API) call(kind string, p *c16Params, eni string, n int, fail string)
 	a.rt.mu.Unlock()
 	ctx := context.Background()
 	bo := wait.Backoff{Steps: 1}
+	if fail == "3" {
+		bo = wait.Backoff{Steps: 3, Duration: time.Millisecond, Factor: 1}
+	}
 	var err error
 	switch kind {
 	case "create":
@@ -132,6 +138,10 @@ func (a *c16API) call(kind string, p *c16Params, eni string, n int, fail string)
 		_, err = a.api.CreateElasticNetworkInterfaceV2(ctx, o)
 	case "assign4":
 		_, err = a.api.AssignPrivateIPAddress2(ctx, &client.AssignPrivateIPAddressOptions{NetworkInterfaceOptions: &client.NetworkInterfaceOptions{NetworkInterfaceID: eni, IPCount: n, IPv6Count: n}, Backoff: &bo})
+	case "v1assign4":
+		_, err = a.api.AssignPrivateIPAddress(ctx, &client.AssignPrivateIPAddressOptions{NetworkInterfaceOptions: &client.NetworkInterfaceOptions{NetworkInterfaceID: eni, IPCount: n, IPv6Count: n}, Backoff: &bo})
+	case "v1assign6":
+		_, err = a.api.AssignIpv6Addresses(ctx, &client.AssignIPv6AddressesOptions{NetworkInterfaceOptions: &client.NetworkInterfaceOptions{NetworkInterfaceID: eni, IPCount: n, IPv6Count: n}, Backoff: &bo})
 	case "assign6":
 		_, err = a.api.AssignIpv6Addresses2(ctx, &client.AssignIPv6AddressesOptions{NetworkInterfaceOptions: &client.NetworkInterfaceOptions{NetworkInterfaceID: eni, IPCount: n, IPv6Count: n}, Backoff: &bo})
 	}
@@ -180,6 +190,9 @@ func (s *c16State) apiOp(c *Ctx, f []string, trace []string) string {
 	case "tok.aassign4", "tok.aassign6":
 		n, _ := strconv.Atoi(f[2])
 		tok, failed, err = s.api.call(strings.TrimPrefix(f[0], "tok.a"), nil, unhexStr(f[1]), n, fail)
+	case "tok.bassign4", "tok.bassign6":
+		n, _ := strconv.Atoi(f[2])
+		tok, failed, err = s.api.call("v1"+strings.TrimPrefix(f[0], "tok.b"), nil, unhexStr(f[1]), n, fail)
 	}
 	if err != nil {
 		if tok == "" {
